@@ -55,7 +55,9 @@ def cases(tier, seed):
             ('mefnone', [False, True]),                                   # a manufacturer value given as None in the bead rows
             ('samplevolt', ['recorded', 'absent']),
             ('chnames', ['plain', 'blank']),
-            ('beadsref', ['own', 'failed-row']),                            # rows that ask for no MEF name a bead row whose file is missing (no fault: no calibration is needed)
+            ('beadsref', ['own', 'failed-row']),
+            ('mefcols', ['instrument-order', 'reversed']),                  # left-to-right order of the '<channel> MEF Values' columns of the Beads sheet
+            ('headneg', [False, True]),                                     # float files: strongly negative scatter values among the events discarded first                            # rows that ask for no MEF name a bead row whose file is missing (no fault: no calibration is needed)
             ('hdr', ['plain', 'blanks']),                                 # blanks around / inside the '<channel> Units' headers (allowed by the documented header pattern)
             ('clock', ['ticks', 'flat', 'btim-equal', 'btim', 'none'])]   # how the files record time: 'flat' and 'btim-equal' give an acquisition time of exactly 0 s, 'none' no time at all                              # fluorescence channel names with a blank inside                       # sample files that do not record the optional detector voltage
     # (floating-point files always hold a few scatter events beyond the declared range: they are not clipped by the instrument)
@@ -68,7 +70,9 @@ def cases(tier, seed):
     base = {k_: v[0] for k_, v in dims}
     for extra in (dict(cont='float', gf=1.0), dict(cont='double', gf=1.0, hist=False), dict(cont='float', gf=1.0, nevents='smallest-accepted'),
                   dict(cont='float', neg=True, gf=1.0), dict(mefnone=True, units='all-mef'), dict(mefnone=True, nbeads=2, ninst=2),
-                  dict(samplevolt='absent', units='all-mef'), dict(samplevolt='absent', cont='float')):
+                  dict(samplevolt='absent', units='all-mef'), dict(samplevolt='absent', cont='float'),
+                  dict(mefcols='reversed', units='all-mef'), dict(mefcols='reversed', units='all-mef', nbeads=2, ninst=2),
+                  dict(headneg=True, cont='float'), dict(headneg=True, cont='double', gf=0.3), dict(headneg=True, cont='float', neg=True, gf=1.0)):
         cfg = dict(base, **extra)
         cfg['_dev'] = len(extra)
         if not any(all(d_.get(k_) == v for k_, v in cfg.items() if k_ != '_dev') for d_ in done):
@@ -134,7 +138,8 @@ def build_experiment(c, d):
             wg.write_fcs(os.path.join(d, 'sub', 'cells%d.fcs' % k), wg.cell_layout(inst, stream=50 + k, container=cfg['cont'], negatives=cfg['neg'] and cfg['cont'] != 'int',
                                                                                   n={'many': 800 + 150 * k, 'smallest-accepted': 400 + 600 * (k % 2), 'one-more': 401 + k}[cfg.get('nevents', 'many')],
                                                                                   level=150.0 + 60 * k, overrange=cfg['cont'] != 'int', no_voltage=(cfg.get('samplevolt') == 'absent' and k % 2 == 0),
-                                                                                  res=[1024, 256] if cfg.get('res') == 'mixed' else None, clock=cfg.get('clock', 'ticks')))
+                                                                                  res=[1024, 256] if cfg.get('res') == 'mixed' else None, clock=cfg.get('clock', 'ticks'),
+                                                                                  scatter_neg_head=bool(cfg.get('headneg')) and cfg['cont'] != 'int'))
             mybeads = [b for b in beads if b['inst'] == inst['id']]
             if cfg['units'] == 'mixed':
                 u = [['MEF', 'RFI'], ['a.u.', None], ['Channel', 'mef'], ['rfi', 'MEF']][k % 4]
@@ -168,6 +173,8 @@ def build_experiment(c, d):
         for ch in s['units']:
             if ch not in ucols:
                 ucols.append(ch)
+    if c.get('cfg', {}).get('mefcols') == 'reversed':
+        mcols.reverse()
     wg.write_workbook(wb, insts, beads, samples, mef_channels_cols=mcols, unit_channels_cols=ucols,
                       header_style=(c.get('hdr') or c.get('cfg', {}).get('hdr') or 'plain'))
     return wb, insts, beads, samples, hist
